@@ -21,13 +21,14 @@ var valueExpr = map[string]string{"int": "7", "string": `"s"`, "array": "[1]", "
 
 // Op: instantiate a generic class (I) or write a typed member of a live instance (W).
 type Op struct {
-	K     string   `json:"k"`               // I | W
-	Inst  int      `json:"inst"`            // instance number
-	Class string   `json:"class,omitempty"` // G1 (one parameter) | G2 (two parameters)
-	Args  []string `json:"args,omitempty"`
-	Mem   string   `json:"mem,omitempty"` // p (G1 property) | set (G1 method parameter) | a | b (G2 properties)
-	Val   string   `json:"val,omitempty"`
-	Co    int      `json:"co,omitempty"` // coroutine that executes the op (concurrent mode)
+	K       string   `json:"k"`               // I | W
+	Inst    int      `json:"inst"`            // instance number
+	Class   string   `json:"class,omitempty"` // G1 (one parameter) | G2 (two parameters)
+	Args    []string `json:"args,omitempty"`
+	Mem     string   `json:"mem,omitempty"` // p (G1 property) | set (G1 method parameter) | a | b (G2 properties)
+	Val     string   `json:"val,omitempty"`
+	Co      int      `json:"co,omitempty"` // coroutine that executes the op (concurrent mode)
+	Factory bool     `json:"factory,omitempty"`
 }
 
 type W struct {
@@ -49,10 +50,16 @@ func gen(r *verifsim.Rng, tier string) (any, hx.Sched) {
 	for len(w.Ops) < nops {
 		if len(insts) < ni && (len(insts) == 0 || r.Intn(3) == 0) {
 			op := Op{K: "I", Inst: len(insts), Class: "G1", Args: []string{verifsim.Pick(r, types)}}
-			if r.Intn(4) == 0 {
+			switch r.Intn(6) {
+			case 0, 1:
 				op.Class = "G2"
 				op.Args = []string{verifsim.Pick(r, types), verifsim.Pick(r, types)}
+			case 2:
+				op.Class = "G3" // extends a plain class, has a defaulted property next to the typed one
 			}
+			// Factory: the instance comes from a `new` expression inside a function
+			// (one shared `new` site per class and type argument) instead of an inline one
+			op.Factory = r.Intn(3) == 0
 			insts = append(insts, op)
 			w.Ops = append(w.Ops, op)
 			continue
@@ -60,7 +67,9 @@ func gen(r *verifsim.Rng, tier string) (any, hx.Sched) {
 		in := insts[r.Intn(len(insts))]
 		op := Op{K: "W", Inst: in.Inst, Val: verifsim.Pick(r, values)}
 		if in.Class == "G1" {
-			op.Mem = verifsim.Pick(r, []string{"p", "p", "p", "set"})
+			op.Mem = verifsim.Pick(r, []string{"p", "p", "p", "set", "put", "put"})
+		} else if in.Class == "G3" {
+			op.Mem = verifsim.Pick(r, []string{"p", "put"})
 		} else {
 			op.Mem = verifsim.Pick(r, []string{"a", "b"})
 		}
@@ -137,6 +146,13 @@ class V { public $n = 2; }
 class G1<T> {
   public T $p;
   public function set(T $v) { return 1; }
+  public function put($v) { $this->p = $v; return 1; }
+}
+class Base3 { public $inherited = "b"; public function who() { return "base3"; } }
+class G3<T> extends Base3 {
+  public $plain = 5;
+  public T $p;
+  public function put($v) { $this->p = $v; return 1; }
 }
 class G2<K, W> {
   public K $a;
@@ -150,13 +166,25 @@ function wp($o, $v) { try { $o->p = $v; return "A"; } catch (\Throwable $e) { re
 function wa($o, $v) { try { $o->a = $v; return "A"; } catch (\Throwable $e) { return "R"; } }
 function wb($o, $v) { try { $o->b = $v; return "A"; } catch (\Throwable $e) { return "R"; } }
 function wset($o, $v) { try { $o->set($v); return "A"; } catch (\Throwable $e) { return "R"; } }
+function wput($o, $v) { try { $o->put($v); return "A"; } catch (\Throwable $e) { return "R"; } }
+function mkG1int() { return new G1<int>(); }
+function mkG1string() { return new G1<string>(); }
+function mkG1array() { return new G1<array>(); }
+function mkG1U() { return new G1<U>(); }
+function mkG3int() { return new G3<int>(); }
+function mkG3string() { return new G3<string>(); }
+function mkG3array() { return new G3<array>(); }
+function mkG3U() { return new G3<U>(); }
 `
 
 func renderOp(op Op, idx int) string {
 	if op.K == "I" {
+		if op.Factory && op.Class != "G2" {
+			return fmt.Sprintf("$o%d = mk%s%s();\n", op.Inst, op.Class, op.Args[0])
+		}
 		return fmt.Sprintf("$o%d = new %s<%s>();\n", op.Inst, op.Class, strings.Join(op.Args, ", "))
 	}
-	fn := map[string]string{"p": "wp", "a": "wa", "b": "wb", "set": "wset"}[op.Mem]
+	fn := map[string]string{"p": "wp", "a": "wa", "b": "wb", "set": "wset", "put": "wput"}[op.Mem]
 	return fmt.Sprintf("__rec(\"w%d\", %s($o%d, %s));\n", idx, fn, op.Inst, valueExpr[op.Val])
 }
 
@@ -314,7 +342,7 @@ func exec(t *testing.T, x any, s hx.Sched) *hx.Outcome {
 					fmt.Sprintf("%s is %s in this history but %s when the instance is the only instantiation in a fresh VM; history: %s", desc, ar(h), ar(sOK), histStr(w)))
 			}
 			// oracle 2 (own arguments): differential against a non-generic class declared with the concrete type
-			ckey := fmt.Sprintf("c.%s.%s.%s", map[bool]string{true: "set", false: "p"}[op.Mem == "set"], targ, op.Val)
+			ckey := fmt.Sprintf("c.%s.%s.%s", map[bool]string{true: "set", false: "p"}[op.Mem == "set"], targ, op.Val) // put() stores into p
 			if want, ok := concrete[ckey]; ok && sOK != want {
 				o.Violate(fmt.Sprintf("C19/own-argument-not-enforced/%s/%s-gets-%s", memKind(op.Mem), targ, op.Val),
 					fmt.Sprintf("alone in a fresh VM, %s is %s, but a non-generic class whose member is declared %s has it %s", desc, ar(sOK), targ, ar(want)))
